@@ -74,7 +74,7 @@ class SocketDriver(drivers.IrcDriver, drivers.ServersMixin):
         self.servers = ()
         self.eagains = 0
         self.inbuffer = b''
-        self.outbuffer = ''
+        self.outbuffer = b''
         self.zombie = False
         self.connected = False
         self.writeCheckTime = None
@@ -131,13 +131,14 @@ class SocketDriver(drivers.IrcDriver, drivers.ServersMixin):
             while msgs[-1] is not None:
                 msgs.append(self.irc.takeMsg())
             del msgs[-1]
-            self.outbuffer += ''.join(map(str, msgs))
+            data = ''.join(map(str, msgs))
+            if minisix.PY3:
+                data = data.encode()
+            # outbuffer holds bytes: send() returns a number of bytes.
+            self.outbuffer += data
         if self.outbuffer:
             try:
-                if minisix.PY2:
-                    sent = self.conn.send(self.outbuffer)
-                else:
-                    sent = self.conn.send(self.outbuffer.encode())
+                sent = self.conn.send(self.outbuffer)
                 self.outbuffer = self.outbuffer[sent:]
                 self.eagains = 0
             except socket.error as e:
